@@ -36,7 +36,7 @@ from .loop import install_deterministic_zarr_loop  # noqa: E402
 ZARR_LOOP = install_deterministic_zarr_loop()
 
 
-def reset_globals(seed: int = 0):
+def reset_globals(seed: int = 0, keep_stores: bool = False):
     """Reset process-global state so that a run does not depend on what ran
     before it in the same interpreter."""
     import cubed
@@ -61,7 +61,9 @@ def reset_globals(seed: int = 0):
     except AttributeError:
         pass
     random.seed(seed)
-    simstore.reset_registry()
+    if not keep_stores:
+        # (a run that builds its program several times keeps its stores: their ids must stay unique)
+        simstore.reset_registry()
     global ZARR_LOOP
     ZARR_LOOP = install_deterministic_zarr_loop()  # re-installs after a fork
     ZARR_LOOP.reset_counter()
